@@ -176,7 +176,7 @@ func nativeValidate(prog *Program, mod, pkg string, results []*HarnessResult, ti
 		case "panic":
 			return nres.Status == "panic" || nres.Status == "crash"
 		case "hang", "deadlock":
-			return nres.Status == "timeout" || (nres.Status == "crash" && strings.Contains(nres.Msg, "out of memory"))
+			return nres.Status == "timeout" || (nres.Status == "crash" && (strings.Contains(nres.Msg, "out of memory") || strings.Contains(nres.Msg, "all goroutines are asleep")))
 		case "race":
 			return nres.Status == "race"
 		}
@@ -187,7 +187,7 @@ func nativeValidate(prog *Program, mod, pkg string, results []*HarnessResult, ti
 		for _, r := range results {
 			for i, v := range r.Violations {
 				id := fmt.Sprintf("v|%s|%d", r.Spec.Name, i)
-				if !reproduced(v, out[id]) && v.Kind == "assert" {
+				if !reproduced(v, out[id]) && (v.Kind == "assert" || try < 3) {
 					for k := 0; k < 4; k++ {
 						again = append(again, nativeCase{ID: fmt.Sprintf("%s|t%d.%d", id, try, k), Harness: r.Spec.Name, Nondet: v.Nondet, Tier: tier})
 					}
@@ -248,6 +248,16 @@ func nativeValidate(prog *Program, mod, pkg string, results []*HarnessResult, ti
 			}
 			if (nres.Status == "ok" || nres.Status == "race") && equalStrs(nres.Obs, w.Obs) && hasLabel(nres.Labels, w.Label) {
 				r.WitnessOK++
+				if nres.Status == "race" {
+					// the Go race detector saw a data race on a path the engine's monitor passed: a violation in its own right
+					engineSaw := false
+					for _, v := range r.Violations {
+						engineSaw = engineSaw || v.Kind == "race"
+					}
+					if !engineSaw {
+						r.Confirmed = append(r.Confirmed, &Violation{Harness: r.Spec.Name, Kind: "race", Label: "data race reported by the Go race detector on a witness path", Msg: nres.Msg, Nondet: w.Nondet, Replayed: true, NativeOut: "race: " + nres.Msg})
+					}
+				}
 			} else {
 				r.WitnessBad = append(r.WitnessBad, fmt.Sprintf("%s: native status=%s label=%s obs=%v want obs=%v msg=%s", w.Label, nres.Status, nres.Label, nres.Obs, w.Obs, firstLine(nres.Msg)))
 			}
